@@ -215,6 +215,9 @@ func (c *callEngine) callWithStack(ctx context.Context, paramResultStack []uint6
 			return m.FailIfClosed()
 		default:
 		}
+		if err := m.FailIfClosed(); err != nil {
+			return err
+		}
 	}
 
 	var paramResultPtr *uint64
